@@ -2,6 +2,7 @@
 from .. import common as C
 
 LEAN_MODULES = ["ZvtVerif.Properties.C17"]
+NEEDS_RELEASE = True
 TRANSLATED = set()      # translated tables this property consumes (a translator problem elsewhere does not break its tie)
 ASSUMPTIONS = ["usize is 64 bit", "python's cp437 codec is the independent reference for the CP437 repertoire"]
 WIDTH = {"u8": 1, "u16": 2, "u32": 4, "u64": 8, "usize": 8}
@@ -175,8 +176,9 @@ def run(ctx, out):
         add(f"enc.de utf8 str {C.hexs(b)}", "err incomplete")
 
     impl, model = ctx.pair(ops)
-    from ..flow import history_check
+    from ..flow import history_check, release_check
     history_check(ctx, out, ops, impl, "value encoding")
+    release_check(ctx, out, ops, impl, "value encoding")
     out.compare("enc", ops, impl, model)
     out.evaluations += len(ops)
     for o, r, w in zip(ops, impl, want):
